@@ -128,6 +128,9 @@ def enumerate_obligations(unit, ex, contracts):
                         obs.append({"id": f"{unit['name']}|{q}|loop{li}|{k}", "fn": q, "kind": f"loop{li}", "idx": k, "props": cl["tags"] or tags,
                                     "text": E.TAG_RE.sub("", cl["text"]).strip(), "vc_lines": cl["lines"], "src": f"{it['file']}:{f['line']}"})
                         k += 1
+    for lm in unit.get("lemmas", []):
+        obs.append({"id": f"{unit['name']}|{lm['name']}|lemma|0", "fn": lm["name"], "kind": "lemma", "idx": 0, "props": lm.get("props", default_tags),
+                    "text": lm.get("text", "specification-level lemma (no /repo code)"), "src": f"units/{unit['name']}/spec.rs"})
     return obs
 
 
@@ -243,6 +246,7 @@ def run_unit(name, tier="quick", rlimit=None, smt_seed=None):
         for o in obs:
             o["status"] = "discharged"
         spec_fail = []
+        lemma_names = {lm["name"] for lm in unit.get("lemmas", [])}
         for vn in sorted(failed_fns):
             q = fn_by_vname.get(vn)
             if q is None:
@@ -277,7 +281,9 @@ def run_unit(name, tier="quick", rlimit=None, smt_seed=None):
         res["failed"] = [o for o in obs if o["status"] == "failed"]
         res["unmapped_diags"] = [E.render_diag(d) for d in unmapped][:5]
         # a function under contract must actually have been verified by verus (vacuity guard (a))
+        res["functions_under_contract"] = sorted({o["fn"] for o in obs if o["kind"] != "lemma"})
         missing = [q for q in res["functions_under_contract"] if verus_fn_name(q) not in fr]
+        missing += [lm for lm in lemma_names if lm not in fr]
         if missing:
             raise E.Undecided("function-not-verified", "verus did not report: " + ", ".join(missing))
         if spec_fail:
